@@ -235,8 +235,29 @@ def task_accel(ctx, repo):
             obs.append(Obligation('accel.%s.%s' % (upd, has_pm), [],
                                   _bool(ok), W, extra=dict(events=names)))
     ctx.function(m, fn, 'Integrator.compute_accelerations')
+    # Integrator.update_domain(): always forwards to nnps.update_domain(),
+    # whatever the state of the integrator / search object
     fn2 = m.methods('Integrator')['update_domain']
-    ctx.function(m, fn2, 'Integrator.update_domain')
+    nn = SymObject(None, dict(
+        is_periodic=z3.Bool('nnps_is_periodic'),
+        update_domain=Native(lambda e, s_, a, k, n: s_.trace.append(
+            ('nnps.update_domain',))),
+        update=Native(lambda e, s_, a, k, n: s_.trace.append(
+            ('nnps.update',)))), 'nn')
+    o2 = SymObject('Integrator', dict(
+        nnps=nn, fixed_h=z3.Bool('fixed_h'),
+        parallel_manager=None, in_parallel=z3.Bool('in_parallel')), 'self')
+    o2.module = m.name
+    ex2 = Executor(repo, m, qualname='Integrator.update_domain',
+                   merge=False)
+    outs2 = ex2.exec_function(fn2, dict(self=o2))
+    ctx.function(m, fn2, 'Integrator.update_domain', ex2.dropped)
+    obs.append(Obligation('update_domain.returns', [], _bool(
+        len(outs2) >= 1), W))
+    for i_, o in enumerate(outs2):
+        obs.append(Obligation('update_domain.forwards.%d' % i_, o.pc, _bool(
+            [t for t in o.state.trace] == [('nnps.update_domain',)]), W,
+            extra=dict(backends=['z3'])))
 
     def rp(model, ob):
         script = r"""
@@ -494,8 +515,9 @@ def task_helper_text(ctx, repo):
                                        't', 'dt']}, py=('stage1',))
     stB = stepper('BStep', {'stage1': ['self', 'd_idx', 'd_rho', 'dt']},
                   py=('stage3',))
-    integ = SymObject(None, dict(steppers={'fluid': stA, 'solid': stB}),
-                      'integrator')
+    stA2 = stepper('AStep', dict(stA.argspec), py=('stage1',))
+    integ = SymObject(None, dict(steppers={'fluid': stA, 'solid': stB,
+                                           'wall': stA2}), 'integrator')
 
     def mk():
         o = SymObject(cls, dict(object=integ), 'self')
@@ -524,11 +546,13 @@ def task_helper_text(ctx, repo):
     try:
         checks.append(('stepper_defs', run('get_stepper_defs'),
                        'cdef public AStep fluid_stepper\n'
-                       'cdef public BStep solid_stepper'))
+                       'cdef public BStep solid_stepper\n'
+                       'cdef public AStep wall_stepper'))
         checks.append(('stepper_init', run('get_stepper_init'),
                        'self.fluid_stepper = AStep(**steppers["fluid"].'
                        '__dict__)\nself.solid_stepper = BStep(**steppers['
-                       '"solid"].__dict__)'))
+                       '"solid"].__dict__)\nself.wall_stepper = AStep(**'
+                       'steppers["wall"].__dict__)'))
         checks.append(('stepper_loop', run('get_stepper_loop', dest='fluid',
                                            method='stage2'),
                        'self.fluid_stepper.stage2(d_idx, d_x, d_u, s_m, t, '
